@@ -47,7 +47,7 @@ def scan_assumptions(text):
     return res
 
 
-def run_unit(path, rlimit=None, seed=None, extra_args=(), quarantine=()):
+def run_unit(path, rlimit=None, seed=None, extra_args=(), quarantine=(), inline=False):
     t0 = time.time()
     u = Unit(path, quarantine=quarantine)
     res = dict(unit=u.name, template=os.path.relpath(path, VERIF), status='undecided', reason='',
@@ -56,7 +56,27 @@ def run_unit(path, rlimit=None, seed=None, extra_args=(), quarantine=()):
     try:
         text = u.build()
     except ExtractError as e:
-        res['reason'] = 'extraction: %s' % e
+        text = None
+        first_err = e
+    # R-inline (only on retry, when the front end met a function it does not know): helper functions of the same source file
+    # that the unit does not define itself are inlined at their call sites
+    if inline:
+        try:
+            known = set(re.findall(r'\bfn\s+(\w+)', text)) if text is not None else set()
+            tdir = os.path.dirname(path)
+            for fp in [path] + [os.path.join(tdir, x) for x in re.findall(r'^//@include\s+(\S+)', open(path).read(), re.M)]:
+                tt = open(fp).read()
+                known |= set(re.findall(r'\bfn\s+(\w+)', tt))
+                known |= set(x.strip() for x in re.findall(r'^//@(?:fn|sig)\s+[^|]*\|[^|]*\|\s*([\w]+)', tt, re.M))
+                known |= set(re.findall(r'//@wrap\s+fn\s+(\w+)', tt))
+            u2 = Unit(path, quarantine=quarantine, known_fns=known)
+            text2 = u2.build()
+            if u2.inlined:
+                u, text = u2, text2
+        except ExtractError as e:
+            pass
+    if text is None:
+        res['reason'] = 'extraction: %s' % first_err
         res['wall_s'] = time.time() - t0
         res['props'] = u.props
         return res
@@ -67,6 +87,8 @@ def run_unit(path, rlimit=None, seed=None, extra_args=(), quarantine=()):
         f.write(text)
     res['built'] = out
     res['rewrites'] = [dict(rule=r, where=w, count=c) for r, w, c in u.rewrites]
+    if getattr(u, 'inlined', None):
+        res['inlined'] = list(u.inlined)
     res['assumptions'] = scan_assumptions(text)
     res['assumed_items'] = assumed_items(text)
     res['extracted'] = [dict(fn=f['qual'], file=f['file'], line=f['line'], props=f['props'], clauses=f['clauses']) for f in u.functions]
@@ -120,9 +142,14 @@ def run_unit(path, rlimit=None, seed=None, extra_args=(), quarantine=()):
                 return None
             names.add(l.fn)
         names -= set(quarantine)
+        if not inline and any(re.search(r'cannot find function|no method named|no function or associated item named|cannot find value', d['message']) for d in errs_):
+            # a function the unit does not know: first try with the helpers of the same file inlined (R-inline)
+            r_in = run_unit(path, rlimit, seed, extra_args, quarantine=quarantine, inline=True)
+            if r_in.get('inlined'):
+                return r_in
         if not names or len(quarantine) + len(names) > 4:
             return None
-        return run_unit(path, rlimit, seed, extra_args, quarantine=tuple(sorted(set(quarantine) | names)))
+        return run_unit(path, rlimit, seed, extra_args, quarantine=tuple(sorted(set(quarantine) | names)), inline=inline)
 
     if js is None:
         fe = [d for d in diags if d.get('level') == 'error' and not d['message'].startswith('aborting due to')]
@@ -186,7 +213,8 @@ def run_unit(path, rlimit=None, seed=None, extra_args=(), quarantine=()):
     missing = [n for n in u.mustfail if n not in mf_ok]
     # lost anchors (an annotated loop / proof position that is no longer there):
     #  - the function verifies without the annotation -> nothing is undecided
-    #  - it fails, a loop annotation was lost, and no loop is left in it at all -> straight-line code needs no invariant: the failure stands
+    #  - it fails, a loop annotation was lost, and neither a loop nor a closure (iterator adapter) is left in it -> straight-line
+    #    code needs no invariant: the failure stands
     #  - otherwise the failure may be the missing annotation's fault -> undecided, never an alarm
     lost = [x for x in u.soft_undecided if x.get('anchor')]
     if lost:
@@ -196,7 +224,7 @@ def run_unit(path, rlimit=None, seed=None, extra_args=(), quarantine=()):
             fails = [fl for fl in real if fl['fn'] == fnname]
             if not fails:
                 res.setdefault('anchors_not_needed', []).extend(x['msg'] for x in mine)
-            elif all(x['loops_left'] == 0 for x in mine) and any(x['anchor'] == 'loop' for x in mine):
+            elif all(x['loops_left'] == 0 for x in mine) and any(x['anchor'] == 'loop' for x in mine) and not any(x.get('closures') for x in mine):
                 # the annotations were written for a loop that is gone altogether: what is left is straight-line code
                 res.setdefault('anchors_not_needed', []).extend(x['msg'] for x in mine)
             else:
